@@ -285,7 +285,7 @@ def extra_evidence(lines):
         ldhist[key] = ldhist.get(key, 0) + 1
     ev["traced_branch_reach"] = cov
     ev["divisor_limb_length_histogram"] = ldhist
-    return ev + table_cases()
+    return ev
 
 
 def nontrivial(ln):
